@@ -269,21 +269,25 @@ structure ElimState where
 
 def indexOf? (l : List Nat) (x : Nat) : Option Nat := l.findIdx? (· = x)
 
+/-- the edges of one state entered into row `i` of the matrix -/
+def initRow (cfg : Config) (states : List Nat) (i : Nat) (es : List Edge) (a : Mat) : Mat :=
+  es.foldl (fun (a : Mat) e =>
+    match indexOf? states e.dst with
+    | some j =>
+      let literal := Expr.lit [e.label]
+      a.set i j (if (a.get i j).isSome then Expr.union cfg (a.get i j) (some literal) else some literal)
+    | none => a) a
+
+/-- one state of the initialisation loop -/
+def initStep (cfg : Config) (d : Dfa) (states : List Nat) (st : ElimState) (si : Nat × Nat) : ElimState :=
+  let b1 := if d.isFinal si.1 then st.b.setIfInBounds si.2 (some (Expr.lit [])) else st.b
+  { a := initRow cfg states si.2 (d.outEdges si.1) st.a, b := b1 }
+
 /-- the initialisation loop of `Expression::from` -/
 def elimInit (cfg : Config) (d : Dfa) (states : List Nat) : ElimState :=
   let n := d.nodes
-  let a0 : Mat := Array.replicate n (Array.replicate n none)
-  let b0 : Vect := Array.replicate n none
-  (states.zipIdx).foldl (fun (st : ElimState) (si : Nat × Nat) =>
-    let (state, i) := si
-    let b1 := if d.isFinal state then st.b.setIfInBounds i (some (Expr.lit [])) else st.b
-    let a1 := (d.outEdges state).foldl (fun (a : Mat) e =>
-      match indexOf? states e.dst with
-      | some j =>
-        let literal := Expr.lit [e.label]
-        a.set i j (if (a.get i j).isSome then Expr.union cfg (a.get i j) (some literal) else some literal)
-      | none => a) st.a
-    { a := a1, b := b1 }) { a := a0, b := b0 }
+  (states.zipIdx).foldl (initStep cfg d states)
+    { a := Array.replicate n (Array.replicate n none), b := Array.replicate n none }
 
 /-- one iteration `n` of the elimination loop -/
 def elimStep (cfg : Config) (st : ElimState) (n : Nat) : ElimState :=
